@@ -600,6 +600,9 @@ theorem IsClose.inert {c : Call} (h : IsClose c) : Inert c := by
 theorem ParseCall.inert {d : Handle} {c : Call} (h : ParseCall d c) : Inert c := by
   rcases h with ⟨nm, rfl⟩ | ⟨fd, rfl⟩ | ⟨fd, rfl⟩ <;> exact True.intro
 
+theorem EvalCall.inert {c : Call} (h : EvalCall c) : Inert c := by
+  rcases h with rfl | rfl | rfl | ⟨_, rfl⟩ | ⟨_, rfl⟩ <;> exact True.intro
+
 theorem wp_inert {α} {p : Prog α} (src : Bytes) (hc : Calls Inert p) (tr : Trace) :
     wp R (Framed src) p (fun _ _ => True) tr :=
   wp_calls (fun tr _ h => h.framed src tr) hc (All.trivial p) tr
@@ -652,6 +655,9 @@ theorem framed_processMessage (env : PEnv) (orc : EvalOracles) (expr : Expr) (md
       | none => exact True.intro
       | some ms =>
         obtain ⟨p, mf, -, -, -, hname, -⟩ := hpm ms rfl
+        simp only [afterParse]
+        refine wp_bind_ext (wp_inert name (calls_mono (evalMs_calls env orc expr ms) fun _ h => EvalCall.inert h.evalCall) _) ?_
+        intro ev L2 _
         exact framed_afterVerdict env md name st ms _ hname _
 
 end Mdsort.Proofs.Own
